@@ -114,6 +114,11 @@ def check_cumulative(ctx, rule='R4'):
            'running sum over the frame axis of minimum-image steps' if ok else
            f'not built from minimum-image steps accumulated over frames: {", ".join(geo_text(g) for g in gs) or "unknown"}'
            ' (wrapped positions differ by lattice translations, so the result changes under whole-cell shifts)')
+    for e in uniq_events(it, {'store'}, lambda f: f.qualname == fi.qualname):
+        b = e['base']
+        if b is not None and e['kind'] != 'attr' and (b.store or '').startswith('attr:Trajectory'):
+            ctx.ob(rule, fi, e['node'], False, 'the running sum is written into the stored displacements of the trajectory: a second query on the '
+                                               'same object accumulates already accumulated values')
     fd = ctx.fn(f'{TRAJ}.distances_from_base_position')
     it2 = ctx.entry(fd.qualname)
     in_scope = lambda f: f.qualname in (fd.qualname, 'gemdat.trajectory._lengths', fi.qualname)
